@@ -108,6 +108,9 @@ Definition ex_ops : list op :=
    FlushTick 28 []].
 Example C01_wf_satisfiable : wf_init ex_xs /\ wf_ops ex_ops.
 Proof. split; repeat constructor; cbn; lia. Qed.
+Example C01_wf_ops_with_control_frames :
+  wf_ops [House [HKeep; HReset Reconnect] [[[144; 0; 1; 2]]; [[146; 1; 7]]]; Other [[[146; 0]]]].
+Proof. repeat constructor. Qed.
 (** a probe copy is made on the gated link (counter 98 -> 99 -> due), a short send followed by
     an error loses the rest of the batch, the flush tick delivers the probe *)
 Example C01_run_reaches_probe_and_failure :
